@@ -465,6 +465,19 @@ func GenTable(seed int64, idx int) *Table {
 	if nlognames > 250 && r.Intn(8) != 0 {
 		nlognames = 100 + r.Intn(150)
 	}
+	// large blocks, several of them: padding runs, restart offsets and block lengths
+	// beyond 4 KiB / 64 KiB in tables that are not a single block
+	large := idx%29 == 11
+	if large {
+		c.BlockSize = []uint32{8192, 12000, 16384, 32768, 65536, 131072}[r.Intn(6)]
+		nrefs = int(c.BlockSize)/40*(2+r.Intn(3)) + r.Intn(300)
+		if nrefs > 9000 {
+			nrefs = 9000
+		}
+		if nlognames > 60 {
+			nlognames = 60
+		}
+	}
 	style := NameStyle(r.Intn(5))
 	if nrefs > 500 && style == NamesShort {
 		style = NamesNumbered
@@ -472,14 +485,15 @@ func GenTable(seed int64, idx int) *Table {
 
 	// block size: mostly large enough for the biggest record, biased small so that
 	// multi-block sections and multi-level indexes occur.
-	switch r.Intn(10) {
-	case 0, 1:
+	switch bsPick := r.Intn(10); {
+	case large:
+	case bsPick <= 1:
 		c.BlockSize = blockSizes[r.Intn(len(blockSizes))]
-	case 2:
+	case bsPick == 2:
 		c.BlockSize = uint32(96 + r.Intn(400))
-	case 3, 4, 5:
+	case bsPick <= 5:
 		c.BlockSize = []uint32{128, 160, 200, 256}[r.Intn(4)]
-	case 6:
+	case bsPick == 6:
 		c.BlockSize = []uint32{512, 1024}[r.Intn(2)]
 	default:
 		c.BlockSize = blockSizes[r.Intn(len(blockSizes))]
